@@ -1,5 +1,5 @@
 """Shared imports/helpers for the per-property rule tables."""
-from facts import Facts, walk, own_walk, strip, show, kids  # noqa: F401
+from facts import Facts, walk, own_walk, strip, show, kids, callee_name  # noqa: F401
 from pat import M, parse, find  # noqa: F401
 from flow import Search, Monitor, GateMonitor, BeforeMonitor, AfterMonitor, Viol, PRUNE, dominators, dominates_pt, reachable_blocks  # noqa: F401
 
